@@ -49,7 +49,11 @@ pub fn step_poll(c: &MCfg) {
     let wakes0 = gh.task_wakes;
     let mut cx = Context::from_waker(&w);
 
+    let a0 = gh::allocs();
+    gh::alloc_track(true);
     let r = Pin::new(&mut m).poll_next(&mut cx);
+    gh::alloc_track(false);
+    vassert!(gh::allocs() == a0, "C18:MergeBounded allocated during poll_next");
 
     let woken_t = gh.task_wakes[t] > wakes0[t];
     let s = fub::snap(m.verif_inner(), c.cap, t);
@@ -190,7 +194,11 @@ pub fn step_poll_unbounded(c: &MUCfg) {
     let wakes0 = gh.task_wakes;
     let mut cx = Context::from_waker(&w);
 
+    let a0 = gh::allocs();
+    gh::alloc_track(true);
     let r = Pin::new(&mut m).poll_next(&mut cx);
+    gh::alloc_track(false);
+    vassert!(gh::allocs() == a0, "C18:MergeUnbounded allocated during poll_next");
 
     let woken_t = gh.task_wakes[t] > wakes0[t];
     let n2 = m.verif_n_groups();
